@@ -253,7 +253,9 @@ var validPieces = []string{"=", ";", "|", "(", ")", "[", "]", "{", "}", "{{", "}
 	`/a/`, `/[a-z]+/`, `/a\/b/`, `/\//`, `/ /`, `/a*\//`, `/\\/`, `/x\*/`, `/(#|\/\/)/`, `/"([^"])*"/`,
 	"// comment", "//", "// a */ b", "//*", "/* c */", "/**/", "/***/", "/* * */", "/* a **/", "/* a\n b */", "/*/*/", "/* // */", "/*\t*\r\n*/"}
 
-var nearMisses = []string{"@lef", "@leftx", "@", "@Left", "$a", "$", "$1", `""`, `"abc`, `"a b"`, `"\`, "'x'", "/abc", "/ab\n/", "/* open", "/*/", "#", "%", "!", "\\", "^", "~", "`", ",", ".", ":", "?", "&", "+", "-", "*", "é", "\x0c", "\x01", "\x7f", "A", "_a", "9a", "a-b", "{{{", "}}}", "/*", "/", "\xff", "\xc3(", "ab\xfe", "\xe4\xb8"}
+var nearMisses = []string{"@lef", "@leftx", "@", "@Left", "$a", "$", "$1", `""`, `"abc`, `"a b"`, `"\`, "'x'", "/abc", "/ab\n/", "/* open", "/*/", "#", "%", "!", "\\", "^", "~", "`", ",", ".", ":", "?", "&", "+", "-", "*", "é", "\x0c", "\x01", "\x7f", "A", "_a", "9a", "a-b", "{{{", "}}}", "/*", "/", "\xff", "\xc3(", "ab\xfe", "\xe4\xb8",
+	// the NUL character (the end marker of the reader the scanner uses) and its control picture
+	"\x00", "a\x00", "\x00b", "\"a\x00\"", "// c \x00 d", "/* \x00 */", "\u2400", "x\x00\x00"}
 
 var separators = []string{" ", "  ", "\t", "\n", "\r\n", "\n\n", " \t ", "\r", ""}
 
@@ -341,4 +343,28 @@ func TestReplay(t *testing.T) {
 	if err := checkText(in.Text); err != nil {
 		rec.Fail(t, "text", in, "%v", err)
 	}
+}
+
+// ---------- native fuzz target (thorough tier; `go test -fuzz`) ----------
+
+// FuzzScan submits arbitrary byte strings (coverage guided) to the same oracle as the generated texts.
+func FuzzScan(f *testing.F) {
+	for _, s := range []string{
+		"grammar g;\nID = /[a-z]+/\n@left \"+\" <e = e e>\nstart = { \"a\" } [ ID ] {{ $WS }} ( x | ) ;\n",
+		"/* a **/ // c\n\"a\\\"b\" /a\\/b/ @right @none $STRING A_1 gramma grammarx",
+		"'x' \"\" $ $a @lef }}} /**/ /***/ /* ** / */ \"unterminated", "/x\\\\/ /[/]/ \xff A \xc3\xa9 \r\n\t",
+	} {
+		f.Add([]byte(s))
+	}
+	f.Fuzz(func(t *testing.T, data []byte) {
+		if len(data) > 300 {
+			return
+		}
+		text := string(data)
+		if err := checkText(text); err != nil {
+			rec.SetTest("FuzzScan")
+			rec.WriteReplay("text", mkInput(text), err.Error())
+			t.Fatalf("%v", err)
+		}
+	})
 }
